@@ -163,13 +163,19 @@ PROPS = {
     ),
     "C07": dict(
         design_ref="DESIGN.md 7 C07",
-        technique="contract-based deductive verification (PyVC + z3/cvc5 strings) of the tagged-reply builder (command) and of POP3 RETR framing; other response builders not yet under contract",
+        technique="contract-based deductive verification (PyVC + z3/cvc5 strings and regular expressions) of the tagged-reply builder (command), of the header-string builders encode_header / header_or_nil and of the literal framing in FetchAtt.body; "
+                  "quote_string itself (four chained replace_all) by exhaustive bounded enumeration; other response builders not under contract",
         category="other",
-        text="Proved: every tagged reply built by BaseClientHandler.command - OK, NO, BAD, the watchdog BAD and the unhandled-exception BAD - is one CRLF-terminated line beginning '<tag> OK|NO|BAD ' (recorded fix: two replies lacked CRLF); "
-             "the POP3 RETR reply equals status line + dot-stuffed rendering + terminator (C20).",
-        note="Narrow: clauses (b)-(e) (literal counts, quoted-string escaping in ENVELOPE/BODYSTRUCTURE/LIST/LSUB/STATUS, parenthesis balance, round-trip of decoded strings) are not decided; DESIGN F17/F18/F19 (unescaped quotes, missing SP, CR/LF echoed in NO/BAD text) remain suspected, unconfirmed by a contract.",
-        assumptions=["z3/cvc5 sound", "PyVC level-1 string encoding", "handlers push only untagged lines"],
-        not_decided="(b) literal framing, (c) quoted strings, (d) parentheses, (e) round trip",
+        text="Proved: every tagged reply built by BaseClientHandler.command - OK, NO, BAD, the watchdog BAD and the unhandled-exception BAD - is one CRLF-terminated line beginning '<tag> OK|NO|BAD ' (recorded fix: two replies lacked CRLF). "
+             "Proved: for every header value, encode_header returns a string matching the quoted-string grammar \"([^\"\\\\CRLF]|\\\\[\\\\\"])*\" on all four of its paths (latin-1, RFC 2047 encoded words, encoder failure, replace fallback), "
+             "and that string is the quoted form of the value itself when it is latin-1, else of text that decodes to the value (or of the documented lossy '?' fallback); header_or_nil is NIL exactly for an absent field. "
+             "Proved: the literal prefix of BODY[...] announces exactly the octet count of its data (FetchAtt.body, C16). The POP3 RETR reply equals status line + dot-stuffed rendering + terminator (C20). "
+             "Recorded fix: header values were put between double quotes unescaped (DESIGN F17), so a Subject with a quote, a backslash or a decoded CR/LF broke the FETCH response.",
+        note="quote_string (escape \\ and \", drop CR/LF) is a chain of four replace_all calls which neither z3 nor cvc5 decides against the grammar (cvc5 120 s timeout, z3 unknown): it is checked exhaustively over a 7-letter alphabet to length 5/7 - bounded, "
+             "not proved - and enters the proofs as an assumed contract. encode_addrs, BODYSTRUCTURE, LIST/LSUB/STATUS formatting and parenthesis balance are not decided; DESIGN F18/F19 remain suspected.",
+        assumptions=["z3/cvc5 sound", "PyVC level-1 string encoding; bytes modelled as the latin-1 text they decode to", "handlers push only untagged lines", "quote_string contract (bounded tier only)",
+                     "A-EMAIL: Header(s).encode(...) yields encoded words that decode to s once folding CR/LF are removed"],
+        not_decided="(c) for address lists, BODYSTRUCTURE, LIST/LSUB/STATUS; (d) parentheses; (e) beyond ENVELOPE header strings",
     ),
     "C19": dict(
         design_ref="DESIGN.md 7 C19",
